@@ -733,4 +733,29 @@ example :
   have := (hadm subHeap 0 0 (Nat.le_refl _)).2 14 rfl
   exact absurd this.1 (by decide)
 
+/-- `SELECT mean(*) FROM m`: the `case *Call` branch of `RewriteFields`. -/
+def callHeap : Heap := [
+  ⟨sid "Wildcard", [.val 0]⟩,                                         -- 0 *
+  ⟨none, [.ref (some 0)]⟩,                                            -- 1 Args
+  ⟨sid "Call", [.val 7, .ref (some 1)]⟩,                              -- 2 mean(*)
+  ⟨sid "Field", [.ref (some 2), .val 0]⟩,                             -- 3 Field
+  ⟨none, [.ref (some 3)]⟩,                                            -- 4 Fields
+  ⟨sid "Measurement", [.val 0, .val 0, .val 3, .ref none, .val 0, .val 0]⟩, -- 5 Measurement m
+  ⟨none, [.ref (some 5)]⟩,                                            -- 6 Sources
+  ⟨sid "SelectStatement",
+    [.ref (some 4), .ref none, .ref none, .ref (some 6), .ref none, .ref none,
+     .val 0, .val 0, .val 0, .val 0, .val 0, .val 1, .val 0, .val 0, .lib none,
+     .val 0, .val 0, .val 0, .val 0, .val 0]⟩                          -- 7 SelectStatement
+]
+
+/-- The clone is cells 8–15; `template := CloneExpr(expr)` is cells 16–18 (a copy of a node of the
+clone); `call.Args[0] = &VarRef{…}` writes slot 0 of the template's argument array (cell 17); then
+`other.Fields`, `other.Dimensions`. -/
+example : (runOp Gen.cloneTable 8 sampleOracle selectClone (rewriteFieldsBody genIx) 1 callHeap 7).map
+    (fun r => (r.1.length, r.2.1, r.2.2.2, r.2.2.1.filterMap fun w => match w with
+      | .set a i _ => some (a, i)
+      | .alloc _ => none))
+    = some (16, 15, true, [(17, 0), (15, genIx.fields), (15, genIx.dimensions)]) := by
+  decide
+
 end InfluxQL.Props.C14
